@@ -99,7 +99,8 @@ theorem applyPending_aok (S : Schema) (cx : NodeCtx) (ty : TypeId) (h : AOk S cx
       if ((match cx'.ty with
           | some t => (S.nodeType t).allowsMarkType m.2.ty
           | none => markMayApply S m.2.ty ty) && !m.2.isInSet cx'.active) = true then
-        { cx' with active := m.2.addToSet S cx'.active, pending := tRemoveFromSet m.2 cx'.pending }
+        { cx' with active := m.2.addToSet S cx'.active, pending := tRemoveFromSet m.2 cx'.pending,
+                   activeT := tAddToSet S m cx'.activeT }
       else cx') ?_ cx.pending cx ⟨h, rfl, rfl⟩
   · exact ⟨key.1, key.2.1⟩
   · intro c m ⟨⟨hc1, hc2⟩, hm, ht⟩
@@ -591,9 +592,9 @@ theorem enterInner_minv (S : Schema) (wsPre : TypeId → Bool) (st st' : PState)
         intro p ⟨a1, a2, a3, a4⟩
         have hb := hap a1
         exact ⟨hb.1, hb.2 ▸ a2, by rw [hb.2]; exact a3, by rw [hsame.1, hsame.2.2.1]; exact a4⟩
-      have hnew : ∀ (topX : NodeCtx) (o : Opts), topX.ty = top.ty → topX.active = (top.applyPending S ty).active →
-          MI S topX.ty (NodeCtx.new (some ty) attrs topX.active topX.pending solid o) := by
-        intro topX o h1 h2
+      have hnew : ∀ (topX : NodeCtx) (o : Opts) (u : Nat), topX.ty = top.ty → topX.active = (top.applyPending S ty).active →
+          MI S topX.ty { NodeCtx.new (some ty) attrs topX.active topX.pending solid o with uid := u } := by
+        intro topX o u h1 h2
         refine ⟨⟨CanonP.nil S, by simp [NodeCtx.new]⟩, ?_, ?_, by simp [NodeCtx.new]⟩
         · simpa [NodeCtx.new, h2] using haok.1
         · intro m hm
@@ -605,17 +606,17 @@ theorem enterInner_minv (S : Schema) (wsPre : TypeId → Bool) (st st' : PState)
       | none =>
         simp only [hm, Except.ok.injEq] at h
         subst h
-        exact push_minv S _ _ top _ _ c1 htop hlen hsame.1 hmi_ap (hnew _ _ hsame.1 rfl)
+        exact push_minv S _ _ top _ _ c1 htop hlen hsame.1 hmi_ap (hnew _ _ _ hsame.1 rfl)
       | some q =>
         cases ht : (top.applyPending S ty).ty with
         | none =>
           simp only [hm, ht, Except.ok.injEq] at h
           subst h
-          exact push_minv S _ _ top _ _ c1 htop hlen hsame.1 hmi_ap (hnew _ _ hsame.1 rfl)
+          exact push_minv S _ _ top _ _ c1 htop hlen hsame.1 hmi_ap (hnew _ _ _ hsame.1 rfl)
         | some t =>
           simp only [hm, ht, Except.ok.injEq] at h
           subst h
-          refine push_minv S _ _ top _ _ c1 htop hlen (by simpa using ht ▸ hsame.1) ?_ (hnew _ _ (by simpa using ht ▸ hsame.1) rfl)
+          refine push_minv S _ _ top _ _ c1 htop hlen (by simpa using ht ▸ hsame.1) ?_ (hnew _ _ _ (by simpa using ht ▸ hsame.1) rfl)
           intro p hp
           have := hmi_ap p hp
           obtain ⟨⟨b1, b2⟩, b3, b4, b5⟩ := this
